@@ -40,6 +40,19 @@ where
     }
 }
 
+#[cfg(gluon_verif)]
+impl<T> Reference<T> {
+    /// Verification hook: the thread whose heap `<-` clones incoming values into.
+    pub fn verif_thread(&self) -> &Thread {
+        &self.thread
+    }
+
+    /// Verification hook: look at the current contents.
+    pub fn verif_with_value<R>(&self, f: impl FnOnce(&Value) -> R) -> R {
+        f(&self.value.lock().unwrap())
+    }
+}
+
 impl<T> fmt::Debug for Reference<T> {
     fn fmt(&self, f: &mut fmt::Formatter) -> fmt::Result {
         write!(f, "Ref({:?})", *self.value.lock().unwrap())
